@@ -136,7 +136,10 @@ func init() {
 		for _, ch := range tagPunct17 {
 			nameSets = append(nameSets, []string{"a" + string(ch) + "b", "y" + string(ch)})
 		}
-		nameSets = append(nameSets, []string{"cpu%", "host"}, []string{"%s", "100%", "a%%b"}, []string{"%d%v", "x"}, []string{"{{.}}", "$1"})
+		nameSets = append(nameSets, []string{"cpu%", "host"}, []string{"%s", "100%", "a%%b"}, []string{"%d%v", "x"}, []string{"{{.}}", "$1"},
+			// names that are special to the tag syntax itself (inside the listed findings K5 for the binding of the key;
+			// what is judged here is only that the two decoders AGREE, and that neither panics)
+			[]string{"-", "name"}, []string{"-"}, []string{"--", "x"})
 		for _, set := range nameSets {
 			props := M{}
 			full := M{}
